@@ -10,6 +10,7 @@ import (
 	"os"
 	"sort"
 	"strconv"
+	"sync"
 
 	"github.com/marekgalovic/anndb/cluster"
 	"github.com/marekgalovic/anndb/storage"
@@ -83,6 +84,81 @@ func main() {
 					}
 				}
 				enc.Encode(event{Ev: "indep", N: n, R: r, P: p, Members: members, Pl: [][]int{}, Draws: draws, AllDiag: allDiag})
+			}
+		}
+		alloc.Stop()
+	}
+	// membership histories: the members are what is left after joins and removals - of peers this node has
+	// and has not talked to - and re-joins; several creations may run at the same time
+	for _, n := range []int{3, 5, 9} {
+		conn, _ := cluster.NewConn(1, "127.0.0.1:1", "")
+		alloc := storage.NewAllocator(conn)
+		cur := map[int]bool{}
+		for i := 1; i <= n+3; i++ {
+			conn.AddNode(uint64(i*7), "127.0.0.1:1")
+			cur[i*7] = true
+			if i%2 == 0 {
+				conn.Dial(uint64(i * 7)) // a peer this node has a connection to
+			}
+		}
+		for _, i := range []int{2, 3, n + 3} { // one dialed, one never dialed, the last one
+			conn.RemoveNode(uint64(i * 7))
+			delete(cur, i*7)
+		}
+		conn.AddNode(uint64(2*7), "127.0.0.1:1") // a node that comes back
+		cur[14] = true
+		conn.RemoveNode(uint64(14))
+		delete(cur, 14)
+		members := []int{}
+		for m := range cur {
+			members = append(members, m)
+		}
+		sort.Ints(members)
+		for _, r := range []int{1, 2, 3, 8} {
+			for _, p := range []int{1, 3, 7} {
+				var mu sync.Mutex
+				var wg sync.WaitGroup
+				allDiag := 1
+				for g := 0; g < 8; g++ {
+					wg.Add(1)
+					go func(g int) {
+						defer wg.Done()
+						for d := 0; d < draws/4+1; d++ {
+							ev := event{Ev: "place", N: len(members), R: r, P: p, Members: members, Pl: [][]int{}}
+							func() {
+								defer func() {
+									if x := recover(); x != nil {
+										ev.Panic = "panic"
+									}
+								}()
+								for _, s := range alloc.VerifPartitionsNodeIds(uint(p), uint(r)) {
+									row := []int{}
+									for _, id := range s {
+										row = append(row, int(id))
+									}
+									sort.Ints(row)
+									ev.Pl = append(ev.Pl, row)
+								}
+							}()
+							mu.Lock()
+							for i := 1; i < len(ev.Pl); i++ {
+								if len(ev.Pl[i]) != len(ev.Pl[0]) {
+									allDiag = 0
+									break
+								}
+								for j := range ev.Pl[i] {
+									if ev.Pl[i][j] != ev.Pl[0][j] {
+										allDiag = 0
+									}
+								}
+							}
+							enc.Encode(ev)
+							mu.Unlock()
+						}
+					}(g)
+				}
+				wg.Wait()
+				enc.Encode(event{Ev: "indep", N: len(members), R: r, P: p, Members: members, Pl: [][]int{}, Draws: 8 * (draws/4 + 1), AllDiag: allDiag})
 			}
 		}
 		alloc.Stop()
